@@ -544,6 +544,12 @@ func main() {
 				hs.Unwind = *unwind
 			}
 		}
+		if sp := os.Getenv("VERIF_SPEC"); sp != "" {
+			// development aid: JSON overrides for the harness spec (e.g. {"UnwindFor":{"parseConfig":40}})
+			if err := json.Unmarshal([]byte(sp), &hs); err != nil {
+				fatal("VERIF_SPEC: %v", err)
+			}
+		}
 		if pc := os.Getenv("VERIF_PINCASE"); pc != "" {
 			pinCase = map[string]int64{}
 			for _, kv := range strings.Split(pc, ",") {
